@@ -139,11 +139,20 @@ theorem C17_response_partial (e : Exec) (h : execInEnv e = true) : implObs e = s
   | otherExc => cases h
   | ok d n rc =>
     cases d with
-    | true => rfl
+    | true =>
+      have hn : n ≤ 1000000 := by
+        simp only [execInEnv, batchRows] at h; exact of_decide_eq_true h
+      have hb : batches n ≤ 1 := by unfold batches batchRows; omega
+      simp [implObs, specObs, hb]
     | false => cases h
 
 example : execInEnv (.progErr 2003 "42S02" "m") = true ∧ execInEnv (.ok true 0 0) = true ∧
-    execInEnv (.ok true 3 3) = true := by decide
+    execInEnv (.ok true 3 3) = true ∧ execInEnv (.ok true 1000000 1000000) = true := by decide
+
+/-- **Any result of up to 1 000 000 rows is one record batch** — whatever its size in between (1, 1001, 10 000, …), so
+    `to_ipc` never refuses it; one row more is two batches (finding `C17/http500-multi-batch`, exact threshold). -/
+theorem C17_single_batch (n : Nat) : batches n ≤ 1 ↔ n ≤ 1000000 := by
+  unfold batches batchRows; omega
 
 /-- the classifier is exact: outside the envelope a finding key is assigned, inside none, and outside the
     outcomes really differ (so no finding region hides an agreeing case) -/
@@ -153,7 +162,20 @@ theorem C17_response_classified (e : Exec) :
   | progErr _ _ _ => simp [execInEnv, findingOf]
   | otherExc => simp [execInEnv, findingOf, implObs, specObs]
   | ok d n rc =>
-    cases d <;> cases n <;> simp [execInEnv, findingOf, implObs, specObs]
+    cases d with
+    | false => cases n <;> simp [execInEnv, findingOf, implObs, specObs]
+    | true =>
+      have hb := C17_single_batch n
+      by_cases hn : n ≤ 1000000
+      · have := hb.mpr hn
+        simp [execInEnv, findingOf, implObs, specObs, batchRows, hn, this]
+      · have : ¬ batches n ≤ 1 := fun h => hn (hb.mp h)
+        simp [execInEnv, findingOf, implObs, specObs, batchRows, hn, this]
+
+/-- finding `C17/http500-multi-batch`: a describable result of 1 000 001 rows is answered with HTTP 500 -/
+theorem finding_C17_http500_multi_batch (rc : Nat) :
+    implObs (.ok true 1000001 rc) = .http500 ∧ specObs (.ok true 1000001 rc) = .ok 1000001 rc .cols := by
+  constructor <;> simp [implObs, specObs, batches, batchRows]
 
 /-- finding `C17/http500-untranslated-exception` -/
 theorem finding_C17_http500_untranslated : implObs .otherExc = .http500 ∧ specObs .otherExc = .raw := ⟨rfl, rfl⟩
